@@ -8,6 +8,8 @@
    [finite v]: every float token in [v] is a finite float's repr token (digits [. digits] [e[+-]digits], optional
    leading minus; not inf/nan) and every int has at most 4300 decimal digits (CPython's int<->str limit; beyond
    it str() raises ValueError and the model returns None).  There is no condition on str or bytes payloads.
+   [embeddable v] = [finite v] and at most 200 nested brackets (CPython's tokenizer limit; beyond it ast.parse
+   raises SyntaxError and the model returns None).
    Stated assumption of the model (tested, not proved): bytes >= 128 of a str are copied into the text by repr. *)
 From Coq Require Import Ascii String List ZArith Bool.
 From FA.Base Require Import PyAst Value.
@@ -36,15 +38,21 @@ Proof. exact LiteralProofs.parse_repr. Qed.
 Print Assumptions parse_repr.
 
 (* every value of the listed types is embedded (never refused), as exactly its literal node ... *)
-Theorem as_ast_exact : forall v, finite v = true -> as_ast v = Some (lit_expr v).
+Theorem as_ast_exact : forall v, embeddable v = true -> as_ast v = Some (lit_expr v).
 Proof. exact LiteralProofs.as_ast_exact. Qed.
 Print Assumptions as_ast_exact.
 
 (* ... which evaluates back to an equal value of the same type (PBool <> PInt, PTuple <> PList, PStr <> PBytes
    are different constructors of [pyval]) *)
-Theorem as_ast_roundtrip : forall v, finite v = true -> exists e, as_ast v = Some e /\ literal_eval e = Some v.
+Theorem as_ast_roundtrip : forall v, embeddable v = true -> exists e, as_ast v = Some e /\ literal_eval e = Some v.
 Proof. exact LiteralProofs.as_ast_roundtrip. Qed.
 Print Assumptions as_ast_roundtrip.
+
+(* outside CPython's limits (more than 4300 digits, more than 200 nested brackets) the value is refused
+   ([None]: ValueError / SyntaxError); whenever a node is emitted for a finite value it is exactly its literal *)
+Theorem as_ast_some : forall v e, as_ast v = Some e -> finite v = true -> e = lit_expr v.
+Proof. exact LiteralProofs.as_ast_some. Qed.
+Print Assumptions as_ast_some.
 
 (* strings are neither altered nor parsed as code: one string constant with the same bytes, for every string *)
 Theorem as_ast_no_code : forall s, as_ast (PStr s) = Some (Const (CStr s)).
@@ -85,12 +93,12 @@ Print Assumptions check_ast_gate.
    format with the source first and each Python argument as its own literal, in the wire format's position *)
 Theorem terminals_embed : forall meth node lits, In (meth, node, lits) wire_format ->
   forall q env vs,
-    map (fun nm => lookup nm env) lits = map Some vs -> forallb finite vs = true ->
+    map (fun nm => lookup nm env) lits = map Some vs -> forallb embeddable vs = true ->
     as_terminal meth q env = Some (Call (Name node) (q :: map lit_expr vs) [] []).
 Proof. exact LiteralProofs.terminals_embed. Qed.
 Print Assumptions terminals_embed.
 
-Theorem metadata_embed : forall q md, finite md = true ->
+Theorem metadata_embed : forall q md, embeddable md = true ->
   metadata_call q md = Some (Call (Name "MetaData") [q; lit_expr md] [] []).
 Proof. exact LiteralProofs.metadata_embed. Qed.
 Print Assumptions metadata_embed.
@@ -116,7 +124,7 @@ Definition nasty : pyval :=
           (PTuple [], PTuple [PNone; PFloat "-1.5e-07"; PFloat "1e+16"; PBytes "b'\x"]);
           (PBool false, PDict []) ].
 
-Example nasty_finite : finite nasty = true.
+Example nasty_finite : embeddable nasty = true.
 Proof. vm_compute. reflexivity. Qed.
 
 Example nasty_text :
@@ -137,6 +145,12 @@ Example type_exact :
   literal_eval (Tuple [Const (CInt 1)]) <> literal_eval (List [Const (CInt 1)]) /\
   literal_eval (Name "inf") = None /\ literal_eval (BinOp BAdd (Const (CStr "x")) (Const (CStr "y"))) = None.
 Proof. repeat split; vm_compute; congruence. Qed.
+
+Example deep_refused :
+  let deep := Nat.iter 201 (fun v => PList [v]) (PInt 1) in
+  finite deep = true /\ embeddable deep = false /\ as_ast deep = None /\
+  embeddable (Nat.iter 200 (fun v => PTuple [v]) (PStr "it's")) = true.
+Proof. repeat split; vm_compute; reflexivity. Qed.
 
 Example not_finite : finite (PFloat "inf") = false /\ finite (PList [PFloat "nan"]) = false /\ as_ast (PFloat "inf") = Some (Name "inf").
 Proof. repeat split; vm_compute; reflexivity. Qed.
